@@ -26,7 +26,7 @@ HasInj(v) == v \in {"okA", "okA2", "okB", "bad", "typeerr"}
 Generates(v) == v \in {"okA", "okA2", "okB"}
 
 Headers  == {"none", "ok", "unreadable"}
-Tags     == {"", "extra"}
+Tags     == {"", "extra more"}        \* none, or two extra build tags in wire's space-separated form
 
 \* content of an output file
 Fresh(v, hdr, tg) == "gen:" \o v \o ":" \o hdr \o ":" \o tg
